@@ -110,10 +110,29 @@ def run(res, tier, rng):
                 if mo != io2:
                     bad = [i for i in range(6) if mo[i] != io2[i]]
                     res.violation("correspondence", "hostname helper models differ from implementation at positions %s" % bad, input=dict(string=u), impl=io, model=mo)
+    # the three variant stem functions: model vs implementation (default options) x suffix_aware
+    vs = strs[:1200] if tier == "quick" else strs
+    for sa in (False, True):
+        chunks = [vs[i:i + 300] for i in range(0, len(vs), 300)]
+        outs = common.run_driver_parallel([("variant_stems", [env_for(*ch), sa, ch]) for ch in chunks], jobs=12)
+        for ch, out in zip(chunks, outs):
+            if not isinstance(out, list):
+                continue
+            for u, mo in zip(ch, out):
+                res.evaluations += 1
+                io = [call(canonicalized_lru_stems, u, suffix_aware=sa), call(normalized_lru_stems, u, suffix_aware=sa),
+                      call(fingerprinted_lru_stems, u, suffix_aware=sa), call(fingerprinted_lru_stems, u, suffix_aware=sa, strip_suffix=True)]
+                if isinstance(mo, list) and Exc("OracleMiss") not in mo:
+                    io2 = [x if not (isinstance(x, Exc) and x.name.startswith("Unicode")) else Exc("UnicodeError") for x in io]
+                    # a fingerprint that cannot be unpacked raises ValueError in both
+                    if mo != io2:
+                        bad = [i for i in range(4) if mo[i] != io2[i]]
+                        res.violation("correspondence", "variant stems models differ from implementation at positions %s (0 canonicalized, 1 normalized, 2 fingerprinted, 3 fingerprinted+strip_suffix)" % bad,
+                                      input=dict(string=u, suffix_aware=sa), impl=[io[i] for i in bad], model=[mo[i] for i in bad])
     res.nontrivial = nontriv
     res.rule = ("urls of the C01 grammar (with surrounding whitespace, wrapped in redirects) and bare hostnames (language labels, irrelevant subdomains, punycode, multi-label suffixes): "
                 "get_normalized_hostname / get_fingerprinted_hostname vs the host of normalize_url / fingerprint_url (unsplit=False) x normalize_amp x infer_redirection x strip_suffix; "
                 "bare-hostname forms; get_hostname vs the standard parser; the three stem variants vs lru_stems of the url-level result (minus the scheme stem) x suffix_aware; "
-                "model vs implementation for the six helpers. Non-trivial = urls with a host on which the first agreement holds.")
+                "model vs implementation for the six helpers and the three variant stem functions. Non-trivial = urls with a host on which the first agreement holds.")
     res.sample(dict(hostname="fr-FR.facebook.com", fingerprint_hostname=call(fingerprint_hostname, "fr-FR.facebook.com", strip_suffix=True)))
     res.theorems = THEOREMS
